@@ -29,3 +29,13 @@ PROPS["C02"]["level_note"] = PROPS["C02"]["level_note"] + (
 
 PROPS["C02"]["level_text"] = PROPS["C02"]["level_text"] + (
     " multi_ok_over_stream_model (BV.Props.C02Part): CompressMulti with every job run over the stream machine on a fresh encoder - ALL jobs at quality 0/1 (no dictionary there; the qualities of the cut-stream defect), single-threaded calls, inputs shorter than the thread count - any spawner, any payload encoders, any capacity: Ok(k) implies that every job's FINISH call returned true with is_finished(), nothing pending and its whole piece consumed, the job's bytes are all the bytes that call produced, and output[..k] is the reference splice of these complete streams (multi_ok_sound composed with part_ok_iff_finished; no oracle hypothesis).")
+
+# composition with C08Run (coordinator's last round): the "fits" hypothesis from LogGuard
+if "BV.Props.C02Run" not in PROPS["C02"]["lean_modules"]:
+    PROPS["C02"]["lean_modules"] = PROPS["C02"]["lean_modules"] + ["BV.Props.C02Run"]
+PROPS["C02"]["level_text"] = PROPS["C02"]["level_text"] + (
+    " part_succeeds_when_stream_fits_run_partial (BV.Props.C02Run): composed with C08Run's stream_total_le_bound_run, for a fresh-encoder job at quality >= 2 whose payload pieces obey LogGuard (the per-meta-block growth bound C08 guard_holds proves of WriteMetaBlockInternal - the only payload hypothesis) the job buffer of BrotliEncoderMaxCompressedSize(len) suffices and compress_part answers Ok with the complete stream: the `fits` hypothesis of part_of_stream_model is discharged."
+    " PARTIAL: proved when the job's FINISH call followed by take_output(0) leaves the encoder FINISHED (the call consumed its whole piece; the early-return case - buffer full with input unconsumed - needs a drain-to-finish / schedule-independence lemma over run), with input_pos_ = piece length after the job and with C08's model of BrotliEncoderMaxCompressedSize <= C02's at that length as explicit hypotheses (the last proved below 2^14 bytes, kernel-checked at sample lengths above).")
+PROPS["C02"]["assumptions"] = PROPS["C02"]["assumptions"] + [
+    "part_succeeds_when_stream_fits_run_partial: LogGuard (C08's growth bound per emitted meta-block) + the three explicit hypotheses of the partial statement (call processed the FINISH; input_pos_ = piece length; the two models of BrotliEncoderMaxCompressedSize agree at that length). multi_succeeds_when_sized still assumes MemberOK (C03: well-formed catable members, non-empty pieces) and the per-job size bounds JobStream - now derivable from LogGuard for fresh-encoder jobs only (quality >= 2 jobs with a dictionary prefix are outside the stream model)",
+]
